@@ -129,7 +129,11 @@ func checkC04(r *Result) {
 			if strings.HasPrefix(k, "(x/bridge/keeper.Keeper).ClaimDeposit|") {
 				want = 2
 			}
-			r.check(len(got[k]) == want, "CENSUS-ESCROW", k, where, fmt.Sprintf("%d call sites (reviewed: %d) — %s", len(got[k]), want, why))
+			nsites := 0
+			for _, g := range got[k] {
+				nsites += Multiplicity(g.Fn)
+			}
+			r.check(nsites == want, "CENSUS-ESCROW", k, where, fmt.Sprintf("%d call sites (reviewed: %d) — %s", nsites, want, why))
 		}
 	}
 	// ---- MOVER-SOURCES
